@@ -47,7 +47,7 @@ REQUIRED = ["constructions", "points_multiset_checked", "mst_length_checked", "l
             "limit_root_not_exempt", "root_wants_more_than_k", "parents_replayed", "balanced_replayed",
             "float32_clouds", "integer_clouds", "clouds_with_coincident_points", "far_clouds", "soma_given", "soma_first_point", "class_PointsToMST",
             "class_PointsToCuntzMST", "tap_call"]
-FLOOR = {"quick": 800, "thorough": 16000}
+FLOOR = {"quick": 650, "thorough": 13000}
 SHARDS = {"quick": 8, "thorough": 16}
 TIMEOUT = {"quick": 300, "thorough": 3000}
 
